@@ -64,11 +64,22 @@ MapOp(P, v) ==
     /\ data'  = [x \in DOMAIN data |-> IF x \in P THEN v ELSE data[x]]
     /\ last'  = [op |-> "map", on |-> P, v |-> v]
 
+(* Map whose callback fails at key k: the entries before k (in iteration order) whose key is in P have been given v, *)
+(* k itself and everything after it are what they were - whatever the callback returned next to its error.           *)
+Pos(x) == CHOOSE i \in 1..Len(order) : order[i] = x
+MapFail(P, v, k) ==
+    /\ Tick
+    /\ k \in DOMAIN data
+    /\ order' = order
+    /\ data'  = [x \in DOMAIN data |-> IF x \in P /\ Pos(x) < Pos(k) THEN v ELSE data[x]]
+    /\ last'  = [op |-> "mapfail", on |-> P, v |-> v, k |-> k]
+
 Next == \/ \E k \in Keys, v \in Vals : Set(k, v)
         \/ \E k \in Keys, v \in Vals : Update(k, v)
         \/ \E k \in Keys : Delete(k)
         \/ \E P \in SUBSET Keys : Filter(P)
         \/ \E P \in SUBSET Keys, v \in Vals : MapOp(P, v)
+        \/ \E P \in SUBSET Keys, v \in Vals, k \in Keys : MapFail(P, v, k)
 
 Spec == Init /\ [][Next]_vars
 
@@ -96,11 +107,12 @@ FindFirst(P) == LET hits == SelectSeq(order, LAMBDA x : x \in P)
 
 \* Next relation for `tlc -simulate`: the kind of operation is drawn first (TLC would otherwise pick uniformly among
 \* all action instances, and the 64 subsets of Filter and Map would crowd out Set and Delete)
-SimNext == LET kind == RandomElement({"set", "set", "set", "update", "delete", "delete", "filter", "map"}) IN
+SimNext == LET kind == RandomElement({"set", "set", "set", "update", "delete", "delete", "filter", "map", "mapfail"}) IN
            CASE kind = "set"    -> \E k \in Keys, v \in Vals : Set(k, v)
              [] kind = "update" -> \E k \in Keys, v \in Vals : Update(k, v)
              [] kind = "delete" -> \E k \in Keys : Delete(k)
              [] kind = "filter" -> \E P \in SUBSET Keys : Cardinality(P) >= Cardinality(Keys) - 2 /\ Filter(P)
+             [] kind = "mapfail" -> \E P \in SUBSET Keys, v \in Vals, k \in Keys : MapFail(P, v, k)
              [] OTHER           -> \E P \in SUBSET Keys, v \in Vals : MapOp(P, v)
 SimSpec == Init /\ [][SimNext]_vars
 
